@@ -4,6 +4,7 @@ use crate::c01::config_name;
 use crate::families::*;
 use crate::mpc_common::*;
 use crate::util::*;
+use ciphercore_base::graphs::JoinType;
 use ciphercore_base::mpc::mpc_compiler::IOStatus;
 
 pub fn corr(run: &mut Run) {
@@ -15,9 +16,12 @@ pub fn corr(run: &mut Run) {
         .to_owned();
     let mut rng = run.rng("corr");
     let n = run.tier.scale(90, 900);
-    for it in 0..n {
+    // the heavy protocol families are visited deterministically first: each join type, sort
+    let jts = [JoinType::Inner, JoinType::Left, JoinType::Union, JoinType::Full];
+    let n_heavy = run.tier.scale(6, 40);
+    for it in 0..(n + n_heavy) {
         let heavy = it % 10 == 0;
-        let fam = match catch(|| gen_family(&mut rng, heavy)) {
+        let fam = match catch(|| if it < n_heavy { if it % 6 < 4 { join_family(&mut rng, &jts[it % 6..it % 6 + 1]) } else { sort_family(&mut rng) } } else { gen_family(&mut rng, heavy) }) {
             Ok(Ok(f)) => f,
             _ => {
                 run.count("gen:failed");
